@@ -285,6 +285,86 @@ struct ENonTr {
   }
 };
 
+// ------------------------------------------------------------------------------------------------ ECopy
+/// Copy-only element (no move operations: rvalues bind to the copy constructor / copy assignment).  Every "move" a container
+/// performs on it is a copy that may throw the injected fault -- the way to put a throwing element operation inside the
+/// relocation loops (growth, SmallSet's switch to its large state) without making "not moved-from" unattainable.
+/// Address-keyed ledger as ENonTr.
+struct ECopy {
+  int key_, pay_;
+  const ECopy *self_;
+  static const bool kHooks = true;
+  int k() const { return key_; }
+  int p() const { return pay_; }
+  void reg() {
+    HScope hs;
+    uintptr_t a = (uintptr_t)this;
+    std::map<uintptr_t, ElemLedger::Rec>::iterator it = g_elems.byAddr.find(a);
+    if (it != g_elems.byAddr.end()) {
+      elem_viol("construct", "an object is constructed over a live object (the previous one was never destroyed)");
+      g_elems.died(it->second.armedBorn);
+      g_elems.byAddr.erase(it);
+    }
+    g_elems.byAddr[a] = ElemLedger::Rec{ES_ALIVE, G.armed};
+    g_elems.born(G.armed);
+    self_ = this;
+  }
+  ElemLedger::Rec *rec() const {
+    std::map<uintptr_t, ElemLedger::Rec>::iterator it = g_elems.byAddr.find((uintptr_t)this);
+    return it == g_elems.byAddr.end() ? nullptr : &it->second;
+  }
+  bool ok(const char *what) const {
+    ElemLedger::Rec *r = rec();
+    if (self_ != this) {
+      elem_viol(what, r ? "object was moved by raw byte copy although its type is not trivially relocatable"
+                        : "object is not alive here (moved by raw byte copy, destroyed, or never constructed)");
+      return false;
+    }
+    if (!r) { elem_viol(what, "object already destroyed (access outside its lifetime)"); return false; }
+    return true;
+  }
+  ECopy() : key_(0), pay_(0) { G.elem_throw_point(EV_DEFAULT_CTOR); G.elem_event(EV_DEFAULT_CTOR, this); reg(); }
+  ECopy(int k, int p) : key_(k), pay_(p) { G.elem_throw_point(EV_VALUE_CTOR); G.elem_event(EV_VALUE_CTOR, this); reg(); }
+  ECopy(const ECopy &o) : key_(o.key_), pay_(o.pay_) {
+    o.ok("copy-construct from");
+    G.elem_throw_point(EV_COPY_CTOR);
+    G.elem_event(EV_COPY_CTOR, this, &o);
+    reg();
+  }
+  ECopy &operator=(const ECopy &o) {
+    bool a = ok("copy-assign to"), b = o.ok("copy-assign from");
+    G.elem_throw_point(EV_COPY_ASSIGN);
+    G.elem_event(EV_COPY_ASSIGN, this, &o);
+    if (a && b) { key_ = o.key_; pay_ = o.pay_; }
+    return *this;
+  }
+  ~ECopy() {
+    G.elem_event(EV_DTOR, this);
+    HScope hs;
+    if (ok("destroy")) {
+      std::map<uintptr_t, ElemLedger::Rec>::iterator it = g_elems.byAddr.find((uintptr_t)this);
+      g_elems.died(it->second.armedBorn);
+      g_elems.byAddr.erase(it);
+      self_ = nullptr;
+    }
+  }
+  bool operator==(const ECopy &o) const { return key_ == o.key_ && pay_ == o.pay_; }
+  bool operator!=(const ECopy &o) const { return !(*this == o); }
+  bool operator<(const ECopy &o) const { return key_ < o.key_ || (key_ == o.key_ && pay_ < o.pay_); }
+#ifdef SIM_HAS_3WAY
+  std::strong_ordering operator<=>(const ECopy &o) const {
+    if (key_ != o.key_) return key_ < o.key_ ? std::strong_ordering::less : std::strong_ordering::greater;
+    if (pay_ != o.pay_) return pay_ < o.pay_ ? std::strong_ordering::less : std::strong_ordering::greater;
+    return std::strong_ordering::equal;
+  }
+#endif
+  static int state_of(const ECopy &e) {
+    if (e.self_ != &e) return ES_GARBAGE;
+    ElemLedger::Rec *r = e.rec();
+    return r ? (int)r->state : (int)ES_DEAD;
+  }
+};
+
 // ------------------------------------------------------------------------------------------------ EAgg
 /// Non-trivial (because of its member) but without a user-provided default constructor: value-initialisation must
 /// zero-initialise 'key_' first, default-initialisation leaves it indeterminate (fresh simulated memory is 0xCD).
